@@ -150,6 +150,12 @@ def read_attr(it, owner_name, owner_term, owner_sort, attr, spec):
 
 
 def install(w):
+    _install_refs(w)
+    install_refsets(w)
+    install_recdict(w)
+
+
+def _install_refs(w):
     prev_fresh = getattr(w, "fresh_ext", None)
 
     def fresh_ext(it, spec, label):
@@ -343,6 +349,131 @@ def install(w):
             return {"__omap_len__": model.eval(OMAP_LEN(v.t), model_completion=True).as_long()}
         return prev_conc(model, v, it)
     w.concretize = concretize
+
+
+# ------------------------------------------------------------------------------ sets of objects
+class VRefSet(V):
+    """A set whose elements are symbolic objects or None: membership array + a flag for None.
+    The contents are mutable state kept in State.ghost under ('refset', oid)."""
+
+    kind = "refset"
+
+    def __init__(self, oid):
+        self.oid = oid
+
+
+def refset_state(it, s):
+    key = ("refset", s.oid)
+    if key not in it.st.ghost:
+        arr = z3.Array(it.namer.fresh("set"), RefS, sym.B)
+        hn = z3.Bool(it.namer.fresh("set_has_none"))
+        it.st.ghost[key] = (arr, hn)
+        for o in it.live_olds + ([it.st.old] if it.st.old is not None else []):
+            o.ghost.setdefault(key, (arr, hn))
+        if it.live_ghost is not None:
+            it.live_ghost.setdefault(key, (arr, hn))
+    return it.st.ghost[key]
+
+
+def refset_has(it, s, x):
+    arr, hn = refset_state(it, s)
+    if isinstance(x, VAtom):
+        return hn
+    if isinstance(x, VRef):
+        return z3.Select(arr, x.t)
+    if isinstance(x, codec.VOpt):
+        return z3.If(x.is_none, hn, z3.Select(arr, x.val.t))
+    raise Unsupported(f"set element {x!r}")
+
+
+def refset_add(it, s, x):
+    arr, hn = refset_state(it, s)
+    if isinstance(x, VAtom):
+        it.st.ghost[("refset", s.oid)] = (arr, z3.BoolVal(True))
+    elif isinstance(x, VRef):
+        it.st.ghost[("refset", s.oid)] = (z3.Store(arr, x.t, z3.BoolVal(True)), hn)
+    else:
+        raise Unsupported(f"set element {x!r}")
+
+
+def install_refsets(w):
+    prev_fresh = w.fresh_ext
+
+    def fresh_ext(it, spec, label):
+        if spec == "refset":
+            return VRefSet(it.fresh_oid())
+        return prev_fresh(it, spec, label)
+    w.fresh_ext = fresh_ext
+
+    prev_contains = w.contains_ext
+
+    def contains_ext(it, container, item, node):
+        if isinstance(container, VRefSet):
+            return refset_has(it, container, item)
+        return prev_contains(it, container, item, node)
+    w.contains_ext = contains_ext
+
+    prev_getattr = w.getattr_ext
+
+    def getattr_ext(it, v, attr, node):
+        if isinstance(v, VRefSet):
+            return VFunc(None, recv=v, builtin=f"refset.{attr}", name=attr)
+        return prev_getattr(it, v, attr, node)
+    w.getattr_ext = getattr_ext
+
+    def rs_add(it, f, args, kw, node):
+        refset_add(it, f.recv, args[0])
+        return atom(None)
+    w.builtins["refset.add"] = rs_add
+    w.spec_funcs["rs_has"] = lambda it, s, x: VBool(refset_has(it, s, x))
+
+
+# ---------------------------------------------------------------------- recording output dicts
+class VRecDict(V):
+    """A dict that the code under contract only writes (an output parameter): the stores made on
+    the current path are recorded (key, value) in order; reads are outside the model."""
+
+    kind = "recdict"
+
+    def __init__(self, oid):
+        self.oid = oid
+
+
+def install_recdict(w):
+    prev_fresh = w.fresh_ext
+
+    def fresh_ext(it, spec, label):
+        if spec == "recdict":
+            return VRecDict(it.fresh_oid())
+        return prev_fresh(it, spec, label)
+    w.fresh_ext = fresh_ext
+
+    def stores(it, d):
+        return it.st.ghost.setdefault(("recdict", d.oid), [])
+
+    prev_setitem = w.setitem_ext
+
+    def setitem_ext(it, obj, key, val, node):
+        if isinstance(obj, VRecDict):
+            k = ("recdict", obj.oid)
+            it.st.ghost[k] = list(it.st.ghost.get(k, [])) + [(key, val)]
+            return True
+        return prev_setitem(it, obj, key, val, node)
+    w.setitem_ext = setitem_ext
+
+    def f_nstores(it, d):
+        return VInt(len(it.st.ghost.get(("recdict", d.oid), [])))
+
+    def f_store_key(it, d, i):
+        lst = it.st.ghost.get(("recdict", d.oid), [])
+        k = z3.simplify(it.as_int(i, None)).as_long()
+        return lst[k][0] if 0 <= k < len(lst) else VOpaque("no store")
+
+    def f_store_val(it, d, i):
+        lst = it.st.ghost.get(("recdict", d.oid), [])
+        k = z3.simplify(it.as_int(i, None)).as_long()
+        return lst[k][1] if 0 <= k < len(lst) else VOpaque("no store")
+    w.spec_funcs.update({"nstores": f_nstores, "store_key": f_store_key, "store_val": f_store_val})
 
 
 def _mro_dict(cls):
